@@ -37,6 +37,35 @@ func runAssertOK(c *core.Ctx) {
 			isDecoder[r.Fn] = true
 		}
 	}
+	// an unexported helper all of whose callers are encoders handing it their own err argument stands for those
+	// encoders: its parameter can only hold values of the types they are registered under
+	type helperParam struct {
+		fn  *ssa.Function
+		idx int
+	}
+	helperKeys := map[helperParam][]types.Type{}
+	helperBad := map[helperParam]bool{}
+	for _, caller := range p.HandFuncs() {
+		sx.EachInstr(caller, func(in ssa.Instruction) {
+			call, ok := in.(ssa.CallInstruction)
+			if !ok {
+				return
+			}
+			h := sx.Callee(call)
+			if h == nil || h.Blocks == nil || !p.InModule(h) || sx.Exported(h) || h.Signature.Recv() != nil {
+				return
+			}
+			keys, isEnc := encKeys[caller]
+			for i, a := range call.Common().Args {
+				hp := helperParam{h, i}
+				if isEnc && len(caller.Params) >= 2 && a == ssa.Value(caller.Params[1]) {
+					helperKeys[hp] = append(helperKeys[hp], keys...)
+				} else {
+					helperBad[hp] = true
+				}
+			}
+		})
+	}
 	n := 0
 	for _, fn := range p.HandFuncs() {
 		if pk := load.FnPkg(fn); pk != nil && pk.Path() == load.ModPath+"/testutils" {
@@ -50,8 +79,19 @@ func runAssertOK(c *core.Ctx) {
 			n++
 			construct := fmt.Sprintf("%s: %s.(%s)", load.FnName(fn), describeVal(ta.X), load.TypeName(ta.AssertedType))
 			pos := sx.InstrPos(ta)
-			// (a) encoder self-assertion.
-			if keys, isEnc := encKeys[fn]; isEnc && len(fn.Params) >= 2 && ta.X == fn.Params[1] {
+			// (a) encoder self-assertion (in the encoder, or in a helper only encoders call with their own argument).
+			keysA, selfA := encKeys[fn], false
+			if keysA != nil && len(fn.Params) >= 2 && ta.X == fn.Params[1] {
+				selfA = true
+			} else if keysA == nil {
+				for i, prm := range fn.Params {
+					hp := helperParam{fn, i}
+					if ta.X == ssa.Value(prm) && len(helperKeys[hp]) > 0 && !helperBad[hp] {
+						keysA, selfA = helperKeys[hp], true
+					}
+				}
+			}
+			if keys := keysA; selfA {
 				all := len(keys) > 0
 				for _, k := range keys {
 					if sx.IsInterface(ta.AssertedType) {
